@@ -13,6 +13,8 @@ import OFV.Proofs.C10Sz
 import OFV.Proofs.C10SzOp
 import OFV.Proofs.C10Basis
 import OFV.Proofs.C10Two
+import OFV.Proofs.C10Spin
+import OFV.Proofs.C10Lookup
 
 namespace OFV.C10
 open OFV.Model OFV.Model.C10 OFV.Spec OFV.Spec.C10
@@ -194,6 +196,23 @@ theorem build_term_op_sound (t : Term) (d : Det) (s : Nat) (hag : Agree d s)
     (applyTermDet t d).1 % 2 = k' % 2 ∧ Agree (applyTermDet t d).2 s' :=
   applyTermDet_sound t d s hag hlen k' s' h
 
+/-- The determinant lookup of `_build_term_op_`: with duplicate-free integer encodings `keys`,
+`pos = searchsorted(keys, v, sorter=argsort(keys))`, the guard `pos < size` (the fix f2ef2f64)
+and the test `keys[sorter[pos]] == v` succeed exactly when `v` is the encoding of a basis
+determinant, and then `sorter[pos]` is its position — the lookup is membership in the basis. -/
+theorem lookup_sound (keys : List Nat) (hk : keys.Nodup) (v : Nat) :
+    ((searchsorted keys v (argsort keys) < keys.length ∧
+        keys.getD ((argsort keys).getD (searchsorted keys v (argsort keys)) 0) 0 = v) ↔ v ∈ keys) ∧
+      ∀ t, t < keys.length → keys.getD t 0 = v →
+        searchsorted keys v (argsort keys) < keys.length ∧
+          (argsort keys).getD (searchsorted keys v (argsort keys)) 0 = t :=
+  lookup_sound' keys hk v
+
+/-- The big-endian integer encoding `determinant.dot(1 << arange(n)[::-1])` is injective on
+determinants of one length, so distinct basis determinants have distinct encodings. -/
+theorem encode_det_injective (a b : Det) (hl : a.length = b.length) (h : encodeDet a = encodeDet b) : a = b :=
+  encodeDet_inj a b hl h
+
 /-- `_iterate_basis_` yields the reference determinant first (so that it is the vector
 `[1, 0, …, 0]`), for every excitation level and both spin flags. -/
 theorem iterate_basis_reference_first (ref : Det) (level : Nat) (spin : Bool) :
@@ -212,9 +231,21 @@ theorem iterate_basis_spec_nospin (ref : Det) (level : Nat) :
   · rintro ⟨a, b, c⟩; exact ⟨a, (same_number_iff ref d a).mpr b, c⟩
   · rintro ⟨a, b, c⟩; exact ⟨a, (same_number_iff ref d a).mp b, c⟩
 
+/-- `_iterate_basis_(ref, level, spin_preserving=True)` yields, each exactly once, the
+determinants of the reference's length that vacate as many alpha (even) orbitals of the reference
+as they fill empty alpha orbitals, likewise for beta (odd) orbitals — i.e. the same numbers of
+alpha and beta particles, hence the same S_z — and vacate at most `level` orbitals in total. -/
+theorem iterate_basis_spec_spin (ref : Det) (level : Nat) :
+    (iterateBasis ref level true).Nodup ∧ ∀ d, d ∈ iterateBasis ref level true ↔
+      d.length = ref.length ∧ (vacA ref d).length = (filA ref d).length ∧
+        (vacB ref d).length = (filB ref d).length ∧ (vacA ref d).length + (vacB ref d).length ≤ level :=
+  iterateBasis_spin ref level
+
 /-! ## non-vacuity -/
 
 example : jwNumberIndices 2 3 = [3, 5, 6] := by decide
+example : iterateBasis [true, true, false, false] 2 true = [[true, true, false, false], [true, false, false, true], [false, true, true, false], [false, false, true, true]] := by
+  decide
 example : iterateBasis [true, false, false] 1 false = [[true, false, false], [false, true, false], [false, false, true]] := by
   decide
 example : jwSzIndices (1 / 2) 4 (some 1) upIndex downIndex = .ok [8, 2] := by decide +kernel
